@@ -444,6 +444,26 @@ fn judge_round(
     let occ: BTreeSet<u32> = idx.keys().cloned().collect();
     let pd: BTreeSet<u32> = delete_requested.iter().map(|e| e.id()).collect();
     crate::model::check_allocator(&world.entities().verif_snapshot(), &occ, &pd).map_err(|(p0, m)| (if p0 == "C17" && prop == "C17" { "C17" } else { "C10" }, format!("after the concurrent phase: {}", m)))?;
+    // some of the entities created through shared access are deleted through exclusive access before
+    // the maintain (they die at once and must stay dead)
+    {
+        let mut k = 0u64;
+        let victims: Vec<Entity> = created
+            .iter()
+            .filter(|e| {
+                k += 1;
+                !delete_requested.contains(*e) && mix(e.id() as u64 ^ k) % 5 == 0
+            })
+            .cloned()
+            .collect();
+        for e in victims {
+            if world.delete_entity(e).is_err() {
+                return Err(("C10", format!("World::delete_entity({:?}) failed for an entity created through shared access in this frame", e)));
+            }
+            delete_requested.insert(e);
+            rep.bump("exclusive_deletes_of_unmerged_entities", 1);
+        }
+    }
     shared.exec_log.lock().unwrap().clear();
     world.maintain();
     let alive_now: BTreeSet<Entity> = {
